@@ -229,6 +229,12 @@ def d_unfold(E, fv, st, node, prog):
     return NONE
 
 
+def d_compute(E, fv, st, node, prog):
+    for a in node.args:
+        E.compute(fv, st, a)
+    return NONE
+
+
 def d_assert(E, fv, st, node, prog):
     g = fv.to_bool(fv.ev(node.args[0], st, False))
     fv.oblige("ghost-assert", fv.stmt_anchor(node), g, st, node)
@@ -315,6 +321,7 @@ BUILTINS = {
     "at": d_at,
     "ite": d_ite,
     "unfold": d_unfold,
+    "compute": d_compute,
     "assert_": d_assert,
     "isnan": d_isnan,
     "isninf": d_isninf,
